@@ -227,7 +227,7 @@ def gen_stream(rng, maxframe):
         for i, part in enumerate(parts):
             # control frames may be injected between fragments
             if rng.chance(1, 4):
-                cp = rng.bytes(rng.choice([0, 1, 8, 125]))
+                cp = rng.bytes(rng.choice([0, 1, 8, min(125, maxframe)]))   # a control payload above the limit is (rightly) tooLarge
                 cop = rng.choice([9, 10])
                 k = rng.bytes(4)
                 frames.append(ws_ser(True, cop, True, k, cp))
